@@ -46,16 +46,20 @@ def postprocess(src, dst):
         if "sessions" not in sc:
             raise vlib.ToolError("harness scenario failed: " + line[:300])
         sess = {}
+        cids = {}
         for name, v in sc["sessions"].items():
             log = []
+            # several task logs can share the connection of one client-library handle
+            cid = v.get("cid", name) if v.get("cid") else name
+            cids[name] = cid
             if v.get("welcome"):
-                log.append({"op": "open", "c": name, "inv": v.get("open_inv", 0), "ret": v.get("open_ret", 0)})
+                log.append({"op": "open", "c": cid, "inv": v.get("open_inv", 0), "ret": v.get("open_ret", 0)})
             closed = False
             for r in v["log"]:
                 r = dict(r)
-                r["c"] = name
+                r["c"] = cid
                 if r["op"] == "close":
-                    log.append({"op": "closed", "c": name, "inv": r.get("inv", 0), "ret": INF})
+                    log.append({"op": "closed", "c": cid, "inv": r.get("inv", 0), "ret": INF})
                     closed = True
                     continue
                 if r["op"] == "acquire":
@@ -72,7 +76,7 @@ def postprocess(src, dst):
                 idx = next((i for i, r in enumerate(log) if r.get("rep", {}).get("t") == "none" and r["op"] != "acquire"), None)
                 if idx is None:
                     idx = len(log) - 1
-                log.insert(idx + 1, {"op": "closed", "c": name, "inv": log[idx].get("inv", 0) if log else 0, "ret": INF})
+                log.insert(idx + 1, {"op": "closed", "c": cid, "inv": log[idx].get("inv", 0) if log else 0, "ret": INF})
             sess[name] = log
         # real-time order: a record needs every record of another session that returned before it was sent
         for name, log in sess.items():
@@ -100,10 +104,14 @@ def postprocess(src, dst):
             for e in evs:
                 kvs = [[kv[0] if kv[0] is not None else [], kv[1]] for kv in e["kvs"] if not (kv[0] and env_key(kv[0]))]
                 if kvs or not e["kvs"]:
-                    lst.append({"t": e["t"], "kvs": kvs})
+                    ev = {"t": e["t"], "kvs": kvs}
+                    if e.get("nov"):
+                        ev["nov"] = True       # the value of this event was not observable
+                    lst.append(ev)
             streams[k] = lst
         total += sum(len(l) for l in sess.values()) + 1
-        out.append({"sessions": {k: {"log": v} for k, v in sess.items()}, "streams": streams,
+        out.append({"sessions": {k: ({"log": v, "cid": cids[k]} if cids[k] != k else {"log": v}) for k, v in sess.items()},
+                    "streams": streams,
                     "exact": sc.get("exact", []), "extra": sc.get("extra", []),
                     "auth_required": bool(sc.get("auth_required"))})
     with open(dst, "w") as f:
@@ -352,4 +360,90 @@ def gen_c02(rnd, tier):
         # a non-unique subscription on the contended key sees every acknowledged update once, in order
         sessions["c9"] = [{"op": "sub", "c": "c9", "key": keys[0], "unique": False, "live": False, "tid": 1, "wait": True}]
         out.append({"sessions": sessions})
+    return out
+
+
+def gen_c20(rnd, tier):
+    """client library: one connection, its handle cloned to 2-4 tasks that call the public API
+    concurrently, in rounds (each call is awaited by its task; the tasks are not synchronised
+    inside a round); every kind of unsubscribe is followed by the harness' server-side probe"""
+    n = 40 if tier == "quick" else 600
+    out = []
+    for _ in range(n):
+        nt = rnd.randint(2, 4)
+        rounds = rnd.randint(2, 5)
+        tasks = {}
+        for i in range(nt):
+            items = []
+            nsub = nls = 0
+            for rd in range(rounds):
+                items.append({"op": "barrier", "n": rd})
+                for _k in range(rnd.randint(1, 3)):
+                    k = rnd.choice(KEYS)
+                    op = rnd.choice(["get", "get", "cget", "pget", "set", "set", "cset", "cset", "publish", "delete", "pdelete", "ls", "pls",
+                                     "lock", "release", "sub", "psub", "subls", "unsub", "unsub_async", "unsubls", "unsubls_async"])
+                    it = {"op": op}
+                    if op in ("get", "cget", "delete", "lock", "release"):
+                        it.update(key=k)
+                    elif op in ("set", "publish"):
+                        it.update(key=k, val=rnd.choice(VALS))
+                    elif op == "cset":
+                        it.update(key=k, val=rnd.choice(VALS))
+                        if rnd.random() < 0.5:
+                            it.update(ver_from="cget", ver=0)
+                        else:
+                            it.update(ver=rnd.choice([0, 0, 1, 2]))
+                    elif op in ("pget", "pdelete"):
+                        it.update(pat=pat_of(rnd, k, illegal=0.05))
+                    elif op == "ls":
+                        it.update(parent=k[:rnd.randint(0, len(k))])
+                    elif op == "pls":
+                        p = pat_of(rnd, k)
+                        it.update(pat=p[:rnd.randint(0, len(p))])
+                    elif op == "sub":
+                        nsub += 1
+                        it.update(key=k, unique=rnd.random() < 0.5, live=rnd.random() < 0.4)
+                    elif op == "psub":
+                        nsub += 1
+                        it.update(pat=pat_of(rnd, k, illegal=0.0), unique=rnd.random() < 0.5, live=rnd.random() < 0.4)
+                    elif op == "subls":
+                        nls += 1
+                        it.update(parent=k[:rnd.randint(0, len(k))])
+                    elif op in ("unsub", "unsub_async"):
+                        if not nsub:
+                            continue
+                        it.update(ref=rnd.randint(0, 3))
+                    elif op in ("unsubls", "unsubls_async"):
+                        if not nls:
+                            continue
+                        it.update(ref=rnd.randint(0, 3))
+                    if op in ("get", "cget", "set") and rnd.random() < 0.5:
+                        it["typed"] = True
+                    items.append(it)
+            items.append({"op": "barrier", "n": rounds})
+            tasks["t%d" % (i + 1)] = items
+        out.append({"tasks": tasks})
+    return out
+
+
+def gen_c20_buffer(rnd, tier):
+    """send buffer: bursts of set_later / publish_later on few keys (repeated keys, set and publish on
+    the same key) separated by pauses around the delay (10)"""
+    n = 60 if tier == "quick" else 1500
+    out = []
+    ctr = [0]
+    for _ in range(n):
+        tasks = {}
+        for t in range(rnd.choice([1, 1, 2])):
+            items = []
+            for _k in range(rnd.randint(2, 10)):
+                r = rnd.random()
+                if r < 0.35:
+                    items.append({"op": "sleep", "ms": rnd.choice([0, 1, 2, 3, 5, 9, 10, 10, 11, 12, 20, 21, 30])})
+                else:
+                    ctr[0] += 1
+                    items.append({"op": "set_later" if rnd.random() < 0.6 else "publish_later", "k": rnd.choice(["a", "a", "b", "c"]),
+                                  "v": "v%d" % ctr[0]})
+            tasks["t%d" % (t + 1)] = items
+        out.append({"delay": 10, "tasks": tasks})
     return out
